@@ -24,8 +24,9 @@ func New() *tax.RegimeDef {
 			i18n.EN: "Brazil",
 			i18n.PT: "Brasil",
 		},
-		TimeZone:  "America/Sao_Paulo",
-		Validator: Validate,
+		TimeZone:   "America/Sao_Paulo",
+		Validator:  Validate,
+		Normalizer: Normalize,
 		Tags: []*tax.TagSet{
 			common.InvoiceTags(),
 		},
